@@ -230,6 +230,41 @@ pub fn events_for_revisions() -> Vec<Value> {
     evs
 }
 
+/// Two revisions of one module in one compilation: the same module reference, told apart by their definitive identifiers
+/// (X.680 13), disjoint names, headers that differ in tagging default, extensibility and IMPORTS.  The pipeline keeps one
+/// header per parsed module, not per module name: whichever way the three sources are ordered, in one source or several,
+/// the bindings are the same.
+pub fn events_for_same_name() -> Vec<Value> {
+    let mut evs = vec![];
+    let tagdefs = ["IMPLICIT TAGS", "EXPLICIT TAGS", "AUTOMATIC TAGS", ""];
+    let mut fam = 0;
+    for (i, t1) in tagdefs.iter().enumerate() {
+        for (j, t2) in tagdefs.iter().enumerate() {
+            for imports in 0..3 {
+                if i == j && imports == 0 {
+                    continue;
+                }
+                fam += 1;
+                let imp = |on: bool| if on { "IMPORTS Helper FROM Other;\n" } else { "" };
+                let helper = |on: bool| if on { "Helper" } else { "INTEGER" };
+                let r1 = format!("Proto {{ iso(1) identified-organization(3) example(9999) proto(1) revision-1(1) }}\nDEFINITIONS {t1} ::= BEGIN\n{}Alpha ::= SEQUENCE {{ first [0] {}, second [1] BOOLEAN }}\nEND\n", imp(imports == 1), helper(imports == 1));
+                let r2 = format!("Proto {{ iso(1) identified-organization(3) example(9999) proto(1) revision-2(2) }}\nDEFINITIONS {t2} {} ::= BEGIN\n{}Beta ::= SEQUENCE {{ third [0] {}, fourth [1] BOOLEAN }}\nGamma ::= CHOICE {{ g [0] INTEGER, h [1] NULL }}\nEND\n",
+                                 if fam % 2 == 0 { "EXTENSIBILITY IMPLIED" } else { "" }, imp(imports == 2), helper(imports == 2));
+                let other = "Other DEFINITIONS AUTOMATIC TAGS ::= BEGIN\nHelper ::= INTEGER (0..255)\nEND\n".to_string();
+                let srcs = [r1, r2, other];
+                let defset = format!("same-named modules {fam}");
+                let orders: [[usize; 3]; 6] = [[0, 1, 2], [0, 2, 1], [1, 0, 2], [1, 2, 0], [2, 0, 1], [2, 1, 0]];
+                for (k, o) in orders.iter().enumerate() {
+                    let v: Vec<String> = o.iter().map(|x| srcs[*x].clone()).collect();
+                    evs.push(outcome_event(&defset, &if k == 0 { "base: one source per module".to_string() } else { format!("sources permuted {o:?}") }, &compile(&v), &if k == 0 { v.join("\n") } else { String::new() }));
+                    evs.push(outcome_event(&defset, &format!("modules permuted inside one source {o:?}"), &compile(&[v.join("\n")]), ""));
+                }
+            }
+        }
+    }
+    evs
+}
+
 pub fn drive(args: &[String]) -> i32 {
     let cases = util::read_ndjson(util::arg(args, "--cases").expect("--cases"));
     let seed: u64 = std::env::var("VERIF_SEED").ok().and_then(|s| s.parse().ok()).unwrap_or(1);
@@ -247,6 +282,7 @@ pub fn drive(args: &[String]) -> i32 {
         events.extend(chunks);
     }
     events.extend(events_for_revisions());
+    events.extend(events_for_same_name());
     util::write_ndjson(util::arg(args, "--trace").expect("--trace"), &events);
     eprintln!("c11: {} module sets, {} events", indexed.len(), events.len());
     0
